@@ -184,6 +184,7 @@ fn main() {
     if args[1] == "c12-worker" {
         pipeline::install_quiet_panic_hook();
         checks::c12::worker_main();
+        pipeline::cleanup_work_root();
         return;
     }
     if args[1] == "build-once" {
